@@ -266,14 +266,14 @@ func newUniverse(r *core.R) *universe {
 	src := r.Src
 	u := &universe{selectors: selectorChoices}
 	add := func(e *entity) { u.ents = append(u.ents, e) }
-	nvar := func() int { return src.Range(1, 3, "nvariants") }
+	nvar := func() []int { return make([]int, src.Range(1, 3, "nvariants")) } // range over it: the bound is drawn once
 
 	// ---- workload endpoints: local and remote
 	nLocal := src.Range(1, 4, "n_local_wep")
 	nRemote := src.Range(0, 3, "n_remote_wep")
 	mkWEP := func(host, id string) *entity {
 		e := &entity{key: model.WorkloadEndpointKey{Hostname: host, OrchestratorID: "k8s", WorkloadID: id, EndpointID: "eth0"}, name: "wep/" + host + "/" + id, kind: "wep"}
-		for v := 0; v < nvar(); v++ {
+		for range nvar() {
 			sp := epSpec{labels: labelChoices[src.Intn(len(labelChoices), "ep_labels")], profiles: profileLists[src.Intn(len(profileLists), "ep_profiles")],
 				ports: portChoices[src.Intn(len(portChoices), "ep_ports")], iface: "cali" + id, state: "active"}
 			nip := src.Range(1, 2, "ep_nips")
@@ -319,7 +319,7 @@ func newUniverse(r *core.R) *universe {
 			host = remote1
 		}
 		e := &entity{key: model.HostEndpointKey{Hostname: host, EndpointID: fmt.Sprintf("hep%d", i)}, name: fmt.Sprintf("hep/%s/hep%d", host, i), kind: "hep"}
-		for v := 0; v < nvar(); v++ {
+		for range nvar() {
 			labels := labelChoices[src.Intn(len(labelChoices), "ep_labels")]
 			profiles := profileLists[src.Intn(len(profileLists), "ep_profiles")]
 			named := src.Chance(600, "hep_named")
@@ -345,7 +345,7 @@ func newUniverse(r *core.R) *universe {
 	tierNames := []string{"default", "ta", "tb"}
 	for _, tn := range tierNames[:src.Range(1, 3, "n_tiers")] {
 		e := &entity{key: model.TierKey{Name: tn}, name: "tier/" + tn, kind: "tier"}
-		for v := 0; v < nvar(); v++ {
+		for range nvar() {
 			o := orders[src.Intn(len(orders), "tier_order")]
 			da := []v3.Action{v3.Deny, v3.Pass}[src.Intn(2, "tier_da")]
 			e.variants = append(e.variants, variant{desc: fmt.Sprintf("order=%s default=%s", ordStr(o), da), mk: func() interface{} {
@@ -384,7 +384,7 @@ func newUniverse(r *core.R) *universe {
 			continue
 		}
 		e := &entity{key: key, name: name, kind: "policy"}
-		for v := 0; v < nvar(); v++ {
+		for range nvar() {
 			ps := polSpec{tier: []string{"default", "default", "ta", "tb", "t-missing"}[src.Intn(5, "pol_tier")], order: orders[src.Intn(len(orders), "pol_order")],
 				selector: selectorChoices[src.Intn(len(selectorChoices), "pol_sel")], in: genRules(src, 2), out: genRules(src, 2)}
 			if crowded {
@@ -440,7 +440,7 @@ func newUniverse(r *core.R) *universe {
 	// ---- profiles: rules and labels (incl. namespace / service-account style profiles)
 	for _, pn := range []string{"p0", "p1", "p2", "kns.n1"}[:src.Range(1, 4, "n_profiles")] {
 		er := &entity{key: model.ProfileRulesKey{ProfileKey: model.ProfileKey{Name: pn}}, name: "profile-rules/" + pn, kind: "profile-rules"}
-		for v := 0; v < nvar(); v++ {
+		for range nvar() {
 			in, out := genRules(src, 2), genRules(src, 2)
 			er.variants = append(er.variants, variant{desc: fmt.Sprintf("in=%d out=%d", len(in), len(out)), mk: func() interface{} {
 				return &model.ProfileRules{InboundRules: mkRules(in), OutboundRules: mkRules(out)}
@@ -452,7 +452,7 @@ func newUniverse(r *core.R) *universe {
 		}})
 		add(er)
 		el := &entity{key: model.ResourceKey{Kind: v3.KindProfile, Name: pn}, name: "profile-labels/" + pn, kind: "profile-labels"}
-		for v := 0; v < nvar(); v++ {
+		for range nvar() {
 			lt := []map[string]string{{"profile": pn}, {"profile": pn, "tag": ""}, {"role": "x"}, {"ns": "n1", "a": "b"}, {}}[src.Intn(5, "prof_labels")]
 			el.variants = append(el.variants, variant{desc: fmt.Sprintf("labelsToApply=%v", lt), mk: func() interface{} {
 				return &v3.Profile{ObjectMeta: metav1.ObjectMeta{Name: pn}, Spec: v3.ProfileSpec{LabelsToApply: copyMap(lt)}}
@@ -461,9 +461,10 @@ func newUniverse(r *core.R) *universe {
 		add(el)
 	}
 	// ---- network sets
-	for i := 0; i < src.Range(0, 3, "n_netsets"); i++ {
+	nNetsets := src.Range(0, 3, "n_netsets")
+	for i := 0; i < nNetsets; i++ {
 		e := &entity{key: model.NetworkSetKey{Name: fmt.Sprintf("ns%d", i)}, name: fmt.Sprintf("netset/ns%d", i), kind: "netset"}
-		for v := 0; v < nvar(); v++ {
+		for range nvar() {
 			labels := labelChoices[src.Intn(len(labelChoices), "ns_labels")]
 			nets := [][]string{{"12.0.0.0/24", "12.0.0.0/24", "10.0.0.1/32"}, {"12.0.0.0/16", "12.0.1.0/24"}, {"0.0.0.0/0"}, {"feed:beef::/32", "12.1.0.0/24"}, {"10.0.0.2/32"}}[src.Intn(5, "ns_nets")]
 			profiles := profileLists[src.Intn(3, "ns_profiles")]
@@ -479,11 +480,16 @@ func newUniverse(r *core.R) *universe {
 	}
 	// ---- IP pools, blocks and host addresses (routes, tunnel endpoints)
 	if src.Chance(700, "routing") {
-		poolCIDRs := []string{"10.0.0.0/16", "11.0.0.0/16"}
-		for i := 0; i < src.Range(1, 2, "n_pools"); i++ {
+		dualStack := src.Chance(400, "dual_stack")
+		poolCIDRs := []string{"10.0.0.0/16", "11.0.0.0/16", "feed:beef::/64"}
+		nPools := src.Range(1, 2, "n_pools")
+		if dualStack {
+			nPools = 3
+		}
+		for i := 0; i < nPools; i++ {
 			c := poolCIDRs[i]
 			e := &entity{key: model.IPPoolKey{CIDR: mustPrefix(c)}, name: "pool/" + c, kind: "pool"}
-			for v := 0; v < nvar(); v++ {
+			for range nvar() {
 				mode := src.Intn(5, "pool_mode")
 				masq := src.Chance(500, "pool_masq")
 				e.variants = append(e.variants, variant{desc: fmt.Sprintf("mode=%d masq=%v", mode, masq), mk: func() interface{} {
@@ -503,11 +509,15 @@ func newUniverse(r *core.R) *universe {
 			}
 			add(e)
 		}
-		blocks := []string{"10.0.0.0/29", "10.0.1.0/29", "10.0.2.0/29", "11.0.0.0/30"}
-		for i := 0; i < src.Range(1, 4, "n_blocks"); i++ {
+		blocks := []string{"10.0.0.0/29", "10.0.1.0/29", "10.0.2.0/29", "11.0.0.0/30", "feed:beef:0:0:1::/125", "feed:beef:0:0:2::/125"}
+		nBlocks := src.Range(1, 4, "n_blocks")
+		if dualStack {
+			nBlocks = 4 + src.Range(1, 2, "n_blocks6")
+		}
+		for i := 0; i < nBlocks; i++ {
 			c := blocks[i]
 			e := &entity{key: model.BlockKey{CIDR: mustPrefix(c)}, name: "block/" + c, kind: "block"}
-			for v := 0; v < nvar(); v++ {
+			for range nvar() {
 				owner := []string{localHost, remote1, remote2}[src.Intn(3, "block_owner")]
 				borrowedBy := ""
 				if src.Chance(400, "block_borrow") {
@@ -542,10 +552,26 @@ func newUniverse(r *core.R) *universe {
 		hostIPs := map[string][]string{localHost: {"192.168.0.1", "192.168.0.10"}, remote1: {"192.168.0.2", "192.168.1.2"}, remote2: {"192.168.0.3", "172.16.0.3"}}
 		for _, h := range []string{localHost, remote1, remote2} {
 			e := &entity{key: model.ResourceKey{Kind: internalapi.KindNode, Name: h}, name: "node/" + h, kind: "node"}
-			for _, ip := range hostIPs[h] {
+			host6 := map[string][]string{localHost: {"dead:beef:1::1", "dead:beef:2::1"}, remote1: {"dead:beef:1::2", "dead:beef:3::2"}, remote2: {"dead:beef:2::3", "dead:beef:1::3"}}
+			for vi, ip := range hostIPs[h] {
 				ipc, hc := ip, h
-				e.variants = append(e.variants, variant{desc: ip, mk: func() interface{} {
-					return &internalapi.Node{ObjectMeta: metav1.ObjectMeta{Name: hc}, Spec: internalapi.NodeSpec{BGP: &internalapi.NodeBGPSpec{IPv4Address: ipc + "/24"}}}
+				ip6 := ""
+				if dualStack {
+					// the second variant re-addresses both families at once; a third keeps IPv4 and moves IPv6 only
+					ip6 = host6[h][vi]
+				}
+				e.variants = append(e.variants, variant{desc: ip + " " + ip6, mk: func() interface{} {
+					n := &internalapi.Node{ObjectMeta: metav1.ObjectMeta{Name: hc}, Spec: internalapi.NodeSpec{BGP: &internalapi.NodeBGPSpec{IPv4Address: ipc + "/24"}}}
+					if ip6 != "" {
+						n.Spec.BGP.IPv6Address = ip6 + "/64"
+					}
+					return n
+				}})
+			}
+			if dualStack {
+				ipc, hc, ip6 := hostIPs[h][0], h, host6[h][1]
+				e.variants = append(e.variants, variant{desc: ipc + " " + ip6, mk: func() interface{} {
+					return &internalapi.Node{ObjectMeta: metav1.ObjectMeta{Name: hc}, Spec: internalapi.NodeSpec{BGP: &internalapi.NodeBGPSpec{IPv4Address: ipc + "/24", IPv6Address: ip6 + "/64"}}}
 				}})
 			}
 			add(e)
